@@ -10,10 +10,10 @@
 //     filled}.  The object is filled with non-zero content, released, taken back from the same pool
 //     (single P, collector off: pointer identity is asserted, never assumed) and compared with what
 //     the pool's New constructs.
-//  2. ownership: every history of 1..4 (quick) / 1..5 (thorough) operations over a 20-letter
+//  2. ownership: every history of 1..4 (quick) / 1..5 (thorough) operations over a 23-letter
 //     alphabet (parse-and-hold of six statements, release of a held tree, two syntax-error paths,
 //     gosqlx.Format, formatter.Format, ValidateBytes, LintString, Extract*, Scan,
-//     ParseWithRecovery, Tokenize-and-hold, PutTokenizer), each run from empty pools, with the
+//     ParseWithRecovery, Tokenize-and-hold, PutTokenizer, a failing and a cancelled tokenizer call through the pool, Tokenize-hold-and-put), each run from empty pools, with the
 //     invariants evaluated after every step.
 //
 // Not checked here: the cross-goroutine clause of the property (C10's scheduler harness).
@@ -33,7 +33,7 @@ func Check() *common.Check {
 		ID:    "C09",
 		Level: "model_checking",
 		Rule: "cleanliness: one case per (pooled type found in pkg/sql/ast/*.go, field, release path, fill variation); non-trivial = the field was non-zero before release and the very same object (pointer identity) was obtained back from the pool. " +
-			"ownership: one case per operation history of length 1..4 (quick) / 1..5 (thorough) over 20 operations, executed from empty pools with the collector off; distinct = distinct operation sequence; " +
+			"ownership: one case per operation history of length 1..4 (quick) / 1..5 (thorough) over 23 operations, executed from empty pools with the collector off; distinct = distinct operation sequence; " +
 			"non-trivial = a pooled node released earlier in the history is part of a tree handed out later in the same history (the pools really recycled). " +
 			"release audit: one case per statement of the sqlgen space (quick: clause / DML / DDL / hole / nesting sections; thorough: all but the 3/4-operator shapes): parse, release through ReleaseAST / formatter.Format / parser.ValidateBytes, drain every pool (no object twice), then hold two trees of the statement together (disjoint pooled nodes, equal to the tree from empty pools). " +
 			"states = distinct (held values, per-tree node count and recycled-node count) tuples observed after a step",
